@@ -1113,7 +1113,7 @@ impl<'a> Ctx<'a> {
     }
 
     /// `recv.m(args);` for a translated `&mut self` method returning `()`; `PLACE.iter_mut()[.rev()].enumerate().for_each(f);`
-    fn method_stmt(&mut self, m: &syn::ExprMethodCall, conts: &[Frame]) -> R<L> {
+    pub(crate) fn method_stmt(&mut self, m: &syn::ExprMethodCall, conts: &[Frame]) -> R<L> {
         let whole = Expr::MethodCall(m.clone());
         if let Some((place, rev, fname)) = for_each_stmt(&whole) {
             if !self.ext.mut_closures.contains_key(&fname) {
